@@ -1,5 +1,6 @@
 import Octo.Lemmas.Strings
 import Octo.Lemmas.Like
+import Octo.Gen.LikeEscapes
 /-!
 # C12 — String and pattern functions meet their specification
 
@@ -188,6 +189,20 @@ theorem like_spec (p : List Rune) (toks : List Tok) (h : likeTokens p = some tok
   refine ⟨_, _, likeRegex_of_tokens h, parseRegex_emitted toks, ?_⟩
   intro s
   rw [search_anchored, accepts_bodyRe]
+
+/-- tie to the source, regenerated on every run (`vh extract likeescapes` parses functions/functions.go): the
+    model's `needsEscaping` answers true for exactly the characters the Go closure lists … -/
+theorem source_needsEscaping (r : Rune) :
+    needsEscaping r = Gen.LikeEscapes.needsEscaping.contains r := by
+  rw [Bool.eq_iff_iff]
+  csimp [needsEscaping, Gen.LikeEscapes.needsEscaping]
+  omega
+
+/-- … and the text written before and after the loop and the three LIKE special characters are the source's -/
+theorem source_texts :
+    prefixFixed = Gen.LikeEscapes.prefixText ∧ [cDollar] = Gen.LikeEscapes.suffixText ∧
+    cBackslash = Gen.LikeEscapes.likeEscape ∧ cUnderscore = Gen.LikeEscapes.likeAny ∧
+    cPercent = Gen.LikeEscapes.likeAll := by decide
 
 /-- the outcome the specification demands of `like(s, p)` on Go strings -/
 def likeOracle (s p : Bytes) : RxOut :=
